@@ -105,7 +105,66 @@ ACCEPTED_KINDS = {
 #: (algo, family, action_kind) -> reason.  Combos the library does NOT reject by design but that crash
 #: on the tree under test (construction, get_action or learn).  supported() stays True for them.
 #: agents_smoke.py fails when an entry is missing or stale.
-KNOWN_BROKEN: dict[tuple[str, str, str], str] = {}
+class _KnownBroken(dict):
+    """dict whose tree-dependent entries are resolved on first read: CQN/TD3 x tuple are broken exactly
+    when their learn() takes the TensorDict form (i.e. once the library accepts what the training loops
+    pass, they inherit the Tuple-observation defect of DQN/DDPG); with the old 5-tuple-only learn() the
+    python tuples of the tuple form pass.  Resolution calls learn_form() (imports agilerl, ~0.1 s)."""
+    _resolved = False
+
+    def _ensure(self):
+        if self._resolved:
+            return
+        self._resolved = True   # first, learn_form -> build must not recurse
+        for a in ("CQN", "TD3"):
+            try:
+                td = learn_form(a) == "tensordict"
+            except Exception:  # noqa: BLE001
+                td = False
+            for k in ACCEPTED_KINDS[a]:
+                if td:
+                    dict.__setitem__(self, (a, "tuple", k), _R_TUPLE.format(algo=a))
+                else:
+                    dict.pop(self, (a, "tuple", k), None)
+
+    def __getitem__(self, k):
+        self._ensure()
+        return dict.__getitem__(self, k)
+
+    def __contains__(self, k):
+        self._ensure()
+        return dict.__contains__(self, k)
+
+    def get(self, k, d=None):
+        self._ensure()
+        return dict.get(self, k, d)
+
+    def __iter__(self):
+        self._ensure()
+        return dict.__iter__(self)
+
+    def __len__(self):
+        self._ensure()
+        return dict.__len__(self)
+
+    def keys(self):
+        self._ensure()
+        return dict.keys(self)
+
+    def items(self):
+        self._ensure()
+        return dict.items(self)
+
+    def values(self):
+        self._ensure()
+        return dict.values(self)
+
+    def __repr__(self):
+        self._ensure()
+        return dict.__repr__(self)
+
+
+KNOWN_BROKEN: dict[tuple[str, str, str], str] = _KnownBroken()
 
 _R_TUPLE = ("learn(TensorDict from ReplayBuffer) -> AssertionError 'Expected tuple, got TensorDict' "
             "(utils/algo_utils.py preprocess_observation): Transition turns a Tuple observation into a "
